@@ -139,6 +139,18 @@ theorem Safe.cachePut {n : Nat} {k : QKey} {q : Nat} : Safe n (cachePut k q) (fu
   cases hm
   exact ⟨⟨Nat.le_refl _, fun _ _ => rfl, ⟨[], by simp⟩, ⟨[], by simp⟩⟩, trivial⟩
 
+theorem Safe.memoGet {n : Nat} {i : Nat} : Safe n (memoGet i) (fun _ => True) := by
+  constructor
+  intro s a s' _ hm
+  cases hm
+  exact ⟨Frame.refl _ _, trivial⟩
+
+theorem Safe.memoPut {n : Nat} {i : Nat} {v : Option ErrKind} : Safe n (memoPut i v) (fun _ => True) := by
+  constructor
+  intro s a s' _ hm
+  cases hm
+  exact ⟨⟨Nat.le_refl _, fun _ _ => rfl, ⟨[], by simp⟩, ⟨[], by simp⟩⟩, trivial⟩
+
 /-- one step of a `Safe` proof: a leaf, or a bind whose first part is a leaf -/
 macro "sleaf" : tactic => `(tactic| first
   | exact Safe.pure trivial
@@ -151,6 +163,8 @@ macro "sleaf" : tactic => `(tactic| first
   | exact Safe.newObj
   | exact Safe.cacheGet
   | exact Safe.cachePut
+  | exact Safe.memoGet
+  | exact Safe.memoPut
   | exact Safe.allocM
   | exact Safe.writeM (by assumption)
   | assumption)
@@ -468,9 +482,65 @@ theorem objLt_safe {n : Nat} {db : Db} {i j : Nat} : Safe n (objLt db i j) (fun 
   unfold objLt; sauto
 macro_rules | `(tactic| sleaf) => `(tactic| exact objLt_safe)
 
+theorem validateArray_safe {n : Nat} {db : Db} {i : Nat} {o : QObj} {c : Ref} :
+    Safe n (validateArray db i o c) (fun _ => True) := by
+  unfold validateArray; sauto
+macro_rules | `(tactic| sleaf) => `(tactic| exact validateArray_safe)
+
+theorem checkValidityE_safe {n : Nat} {db : Db} {i : Nat} : Safe n (checkValidityE db i) (fun _ => True) := by
+  unfold checkValidityE; sauto
+macro_rules | `(tactic| sleaf) => `(tactic| exact checkValidityE_safe)
+
+theorem checkValidity_safe {n : Nat} {db : Db} {i : Nat} : Safe n (checkValidity db i) (fun _ => True) := by
+  unfold checkValidity; sauto
+macro_rules | `(tactic| sleaf) => `(tactic| exact checkValidity_safe)
+
 theorem isValid_safe {n : Nat} {db : Db} {i : Nat} : Safe n (isValid db i) (fun _ => True) := by
   unfold isValid; sauto
 macro_rules | `(tactic| sleaf) => `(tactic| exact isValid_safe)
+
+/-- a container handed out by `GetValues(unit)` that is not the Array's own one is a NEW cell -/
+theorem arrayValues_fresh {n : Nat} {db : Db} {q : Nat} {c : Ref} {unit : Option Sym} :
+    Safe n (arrayValues db q c unit) (fun r => r.2 = false → n ≤ r.1) := by
+  unfold arrayValues
+  apply Safe.bind Safe.getQ; intro o _
+  split
+  · exact Safe.pure (fun h => by cases h)
+  · split
+    · exact Safe.pure (fun h => by cases h)
+    · apply Safe.bind Safe.readSeq; intro s _
+      apply Safe.bind Safe.liftE; intro v _
+      split
+      · split
+        · exact Safe.pure (fun h => by cases h)
+        · apply Safe.bind Safe.allocM; intro c' hc'
+          exact Safe.pure (fun _ => hc')
+      · exact Safe.fail
+
+/-- the caller's writes go into the container it was handed, which is a new cell -/
+theorem getValuesAndScribble_safe {n : Nat} {db : Db} {i : Nat} {unit : Option Sym} {how : Scribble} :
+    Safe n (getValuesAndScribble db i unit how) (fun _ => True) := by
+  unfold getValuesAndScribble
+  apply Safe.bind Safe.getObj; intro o _
+  split
+  · apply Safe.bind arrayValues_fresh; intro r hr
+    apply Safe.bind Safe.readSeq; intro s _
+    split
+    · exact Safe.pure trivial
+    · rename_i hne
+      have hf : r.2 = false := by cases h : r.2 <;> simp_all
+      apply Safe.bind (Safe.writeM (hr hf)); intro _ _
+      exact Safe.pure trivial
+  · apply Safe.bind arrayValues_fresh; intro r hr
+    apply Safe.bind Safe.readSeq; intro s _
+    split
+    · exact Safe.pure trivial
+    · rename_i hne
+      have hf : r.2 = false := by cases h : r.2 <;> simp_all
+      apply Safe.bind (Safe.writeM (hr hf)); intro _ _
+      exact Safe.pure trivial
+  · exact Safe.fail
+macro_rules | `(tactic| sleaf) => `(tactic| exact getValuesAndScribble_safe)
 
 theorem format_safe {n : Nat} {i : Nat} : Safe n (format i) (fun _ => True) := by
   unfold format; sauto
